@@ -354,7 +354,9 @@ DEFAULTS = {
     "proc_wait": _proc_wait,
     "proc_memory_maps": _memory_maps,
     "proc_net_connections": lambda a, k: [conn_tuple(False, a[0])],
-    "net_connections": lambda a, k: [conn_tuple(True, a[0] if a and a[0] != -1 else 5)],
+    # system-wide (pid -1): one socket of PID 5 and one owned by PID 0 (the kernel / TIME_WAIT on Windows)
+    "net_connections": lambda a, k: ([conn_tuple(True, a[0])] if a and isinstance(a[0], int) and a[0] != -1
+                                     else [conn_tuple(True, 5), conn_tuple(True, 0)]),
     "pids": _pids,
     "pid_exists": lambda a, k: W.present(a[0]) if a[0] == W.pid else W.listed(a[0]),
     "ppid_map": lambda a, k: {p: OTHER_PID for p in W.listing()},
@@ -683,6 +685,8 @@ def run_row(psutil, mod, row):
         what = row["what"]
         if what == "net_if_addrs":
             return outcome(psutil.net_if_addrs)
+        if what == "net_connections":
+            return outcome(lambda: psutil.net_connections("inet"))
     raise ValueError("unknown row kind %r" % (k,))
 
 
